@@ -52,15 +52,16 @@ fn visual_elements<'a, 'b>(
     })
 }
 
-/// The character data of an element: all of its text. (`Node::text` stops at the first comment or
-/// processing instruction inside the element.)
+/// The character data of an element: all of its text, `None` if it has none. (`Node::text` stops at
+/// the first comment or processing instruction inside the element; an empty CDATA section is an
+/// empty text node, which is no text either.)
 fn char_data(node: roxmltree::Node<'_, '_>) -> Option<String> {
-    let mut texts = node
+    let data: String = node
         .children()
         .filter(|n| n.is_text())
-        .filter_map(|n| n.text());
-    let first = texts.next()?;
-    Some(texts.fold(first.to_string(), |data, text| data + text))
+        .filter_map(|n| n.text())
+        .collect();
+    (!data.is_empty()).then_some(data)
 }
 
 fn attrib<'a, 'b>(node: roxmltree::Node<'a, 'b>, label: &str) -> Option<roxmltree::Node<'a, 'b>> {
